@@ -13,9 +13,10 @@ corr   : the Lean models of lean/MakoModel/Paths8 against the real code, op-leve
          on random URIs, Template.__init__'s path selection, _kwargs_for_callable on random signatures, the ModuleInfo
          registry on random register/collect/read scripts, has_def/list_defs, the module preamble, and - per hash seed -
          every declaration block the real generator emitted (recorded by wrapping write_variable_declares in the
-         worker): the emitted order must be an iteration order of the model's `to_write` set with the model's
-         statement kinds, blocks of different seeds must be permutations of each other, and the NameError a strict
-         template raises must be the one `execDecls` raises for the emitted order.
+         worker): the emitted order must be the model's `emittedBlock` (sorted `to_write`, the model's statement
+         kinds), blocks - and the whole generated module - must be IDENTICAL under all hash seeds (since 8e8e5a7 the
+         generator prints sorted sets), and the NameError a strict template raises must be the one `execDecls` raises
+         for the emitted block.
 """
 from __future__ import annotations
 
@@ -31,7 +32,9 @@ import time
 RULE = ("template sets = a main template built from self-contained items (text incl. non-ASCII/CRLF, ${expr|filters}, "
         "% for/if with loop, <% %>/<%! %> blocks, <%def> incl. nested/buffered/filtered, <%call> with caller.body(), "
         "named/anonymous <%block>, <%page args>, <%text>, <%doc>, ## comments, namespace/import/include/inherit edges "
-        "to auxiliary templates, a context.keys() probe inside a def) + data + compile options (strict_undefined, "
+        "to auxiliary templates incl. several importing namespaces that supply the same name, an inheriting template whose "
+        "def reads local/self/parent/next (bracketed by markers: ground truth for get_def().render()), a context.keys() "
+        "probe inside a def) + data + compile options (strict_undefined, "
         "default_filters, buffer_filters, imports, output_encoding); each set x 9 construction paths x 3-4 render calls "
         "x get_def per def x 4 hash seeds; non-trivial = the main template has >= 2 declared names in some render "
         "callable (so that the set order matters) or non-ASCII text; distinct = distinct template sources")
@@ -77,6 +80,7 @@ class Gen:
         self.nd = 0
         self.defs = []        # (name, kwargs for get_def().render)
         self.nested = []      # names of defs nested in other defs: not module-level, so not get_def()-able
+        self.probes = []      # argument-less defs whose full-render output is bracketed by markers (ground truth for get_def)
         self.aux = {}
         self.uses_page = False
         self.flags = set()
@@ -185,15 +189,25 @@ class Gen:
     def edge(self):
         r = self.rng
         k = r.random()
-        if k < 0.3:
+        if k < 0.25:
             self.flags.add("namespace")
             self.aux["/lib.html"] = "<%def name=\"l1(x)\">L1(${x}${v1})</%def><%def name=\"l2()\">L2é</%def>"
             ns = self.name("ns")
             return "<%%namespace name=\"%s\" file=\"/lib.html\"/>${%s.l1(%s)}${%s.l2()}" % (ns, ns, self.var(), ns)
-        if k < 0.55:
+        if k < 0.45:
             self.flags.add("ns-import")
             self.aux["/lib2.html"] = "<%def name=\"m1(x)\">M1(${x})</%def><%def name=\"m2()\">M2${v2}</%def>"
             return "<%namespace file=\"/lib2.html\" import=\"m1, m2\"/>${m1(" + self.var() + ")}${m2()}"
+        if k < 0.62 and "/libA.html" not in self.aux:
+            # two importing namespaces supply the same name: the later tag wins, whatever the hash seed
+            self.flags.add("ns-import-overlap")
+            self.aux["/libA.html"] = "<%def name=\"sh()\">SH-A</%def><%def name=\"oa()\">OA${v1}</%def>"
+            self.aux["/libB.html"] = "<%def name=\"sh()\">SH-B</%def><%def name=\"ob()\">OB</%def>"
+            self.aux["/libC.html"] = "<%def name=\"sh()\">SH-C</%def>"
+            return r.choice([
+                "<%namespace name=\"na\" file=\"/libA.html\" import=\"sh, oa\"/><%namespace name=\"nb\" file=\"/libB.html\" import=\"ob, sh\"/>${sh()}${oa()}${ob()}",
+                "<%namespace file=\"/libB.html\" import=\"*\"/><%namespace file=\"/libA.html\" import=\"*\"/><%namespace file=\"/libC.html\" import=\"sh\"/>${sh()}${oa()}${ob()}",
+                "<%namespace name=\"zz\" file=\"/libC.html\" import=\"sh\"/><%namespace name=\"aa\" file=\"/libA.html\" import=\"*\"/><%namespace name=\"mm\" file=\"/libB.html\" import=\"sh\"/>${sh()}|${aa.sh()}|${zz.sh()}"])
         if k < 0.8:
             self.flags.add("include")
             self.aux["/inc.html"] = "<%page args=\"w='dflt'\"/>INC(${w}${v3})"
@@ -202,7 +216,14 @@ class Gen:
             self.flags.add("inherit")
             self.aux["/base.html"] = "BASE[${self.body()}|<%block name=\"bb\">base-bb${v4}</%block>|${next.body()}]"
             self.defs.append(("bb", {}))
-            return "<%inherit file=\"/base.html\"/><%block name=\"bb\">child-bb" + self.inline() + "</%block>"
+            q = self.name("q")
+            self.defs.append((q, {}))
+            self.probes.append(q)
+            # a def of the INHERITING template that looks at local / self / parent / next: get_def(q).render() must see
+            # the same namespaces as the def called during a full render
+            return ("<%%inherit file=\"/base.html\"/><%%block name=\"bb\">child-bb%s</%%block>"
+                    "<%%def name=\"%s()\">[${local.uri == self.uri}|${parent.uri}|${next is UNDEFINED}|${parent.bb is not UNDEFINED}]</%%def>"
+                    "\u27e6%s:${%s()}\u27e7" % (self.inline(), q, q, q))
         return self.inline()
 
 
@@ -245,7 +266,7 @@ def gen_case(rng, cid, size=None):
             g.flags.add("strict-missing-%d" % len(missing))
     uri = rng.choice(["/main.html", "/main.html", "/sub/main.html", "/sub dir/ma-in.html", "/m\u00e4in.html"])
     return {"id": cid, "items": items, "aux": g.aux, "uri": uri, "data": data, "opts": opts, "defs": g.defs,
-            "nested": g.nested, "flags": sorted(g.flags)}
+            "nested": g.nested, "probes": g.probes, "flags": sorted(g.flags)}
 
 
 def case_text(case):
@@ -562,6 +583,15 @@ def ground_truth(ob, case, text, diffs):
                           v, ob["get_def"][n[:-9]]])
         if n.endswith("#source") and v != ["ok", True] and v[0] != "exc":
             diffs.append(["defs-ground-truth", "str", "get_def(%s).source/code" % n[:-7], True, v])
+    full = ob["render_unicode"]
+    for q in case.get("probes", []):
+        if full[0] != "ok" or ('name="%s()"' % q) not in text:
+            continue
+        m = re.search("\u27e6%s:(.*?)\u27e7" % re.escape(q), full[1], re.S)
+        want = ["ok", m.group(1)] if m else ["missing marker"]
+        if ob["get_def"].get(q) != want:
+            diffs.append(["def-render-namespaces", "str", "get_def(%s).render() vs the def called in a full render" % q,
+                          want, ob["get_def"].get(q)])
 
 
 def run_cli(case, main_file, tdir, root, real):
@@ -800,16 +830,6 @@ def run_seeds(cases, seeds, base, tag="r", phase_b=True):
 CROSS_KEYS = ("construct", "source", "list_defs", "has_def", "render_unicode", "render", "render_context", "get_def")
 
 
-def sort_set_lists(code):
-    """the two places where a set is printed *inside* one line: the keyword list of `__M_locals = __M_dict_builtin(…)`
-    (argument_declared) and the name list of `… for __M_key in […]` (declared identifiers of a <% %> block)"""
-    code = re.sub(r"(__M_locals = __M_dict_builtin\()([^()\n]*)(\))",
-                  lambda m: m.group(1) + ",".join(sorted(m.group(2).split(","))) + m.group(3), code)
-    code = re.sub(r"(for __M_key in \[)([^\]\n]*)(\] if __M_key in __M_locals_builtin_stored)",
-                  lambda m: m.group(1) + ",".join(sorted(m.group(2).split(","))) + m.group(3), code)
-    return code
-
-
 def cross_seed_diffs(ra, rb):
     """reference observations of one case under two hash seeds"""
     diffs = []
@@ -825,12 +845,15 @@ def cross_seed_diffs(ra, rb):
         elif va != vb:
             diffs.append(["hashseed-output" if k.startswith("render") or k == "construct" else "hashseed-" + k, k, va, vb])
     if a.get("code_is_str") and b.get("code_is_str"):
-        ca = sorted(sort_set_lists(norm_code(a["code"], loose=True)[0]).split("\n"))   # (the scratch directory differs per seed)
-        cb = sorted(sort_set_lists(norm_code(b["code"], loose=True)[0]).split("\n"))
+        # since 8e8e5a7 the generated module is a function of the template: identical text under every hash seed
+        # (loose: the scratch directory, hence _template_filename, differs per seed)
+        ca = norm_code(a["code"], loose=True)[0].split("\n")
+        cb = norm_code(b["code"], loose=True)[0].split("\n")
         if ca != cb:
-            only_a = [l for l in ca if l not in cb][:4]
-            only_b = [l for l in cb if l not in ca][:4]
-            diffs.append(["hashseed-code-not-a-line-permutation", "code", only_a, only_b])
+            only_a = [l for l, m in zip(ca, cb) if l != m][:4]
+            only_b = [m for l, m in zip(ca, cb) if l != m][:4]
+            site = "hashseed-code-differs" if sorted(ca) == sorted(cb) or len(ca) == len(cb) else "hashseed-code-not-a-line-permutation"
+            diffs.append([site, "code", only_a, only_b])
     return diffs
 
 
@@ -904,7 +927,7 @@ def shrink_case(ctx, case, seeds, base, site, budget):
 
 def public_case(case, extra=None):
     c = {"input": case_text(case), "uri": case["uri"], "data": case["data"], "opts": case["opts"], "aux": case["aux"],
-         "defs": case["defs"], "nested": case.get("nested", []), "items": case["items"]}
+         "defs": case["defs"], "nested": case.get("nested", []), "probes": case.get("probes", []), "items": case["items"]}
     if extra:
         c.update(extra)
     return c
@@ -1004,8 +1027,16 @@ def oracle_differential(ctx, base):
         {"items": ["héllo ${v1}\n", "<%def name=\"d1(a, b='B')\" buffered=\"True\">  [${a}|${b}]  </%def>${d1(1)}"],
          "opts": {"buffer_filters": ["trim"]}, "data": {"v1": "é"}, "defs": [["d1", {"a": "A", "b": "BB"}]]},
     ]
+    fixed += [
+        {"items": ["<%inherit file=\"/base.html\"/>",
+                   "<%def name=\"q1()\">[${local.uri == self.uri}|${parent.uri}|${next is UNDEFINED}]</%def>\u27e6q1:${q1()}\u27e7"],
+         "aux": {"/base.html": "BASE[${self.body()}|${next.body()}]"}, "opts": {}, "data": {}, "defs": [["q1", {}]], "probes": ["q1"]},
+        {"items": ["<%namespace name=\"na\" file=\"/libA.html\" import=\"sh\"/><%namespace name=\"nb\" file=\"/libB.html\" import=\"sh\"/>"
+                   "<%namespace name=\"nc\" file=\"/libC.html\" import=\"sh\"/><%namespace name=\"nd\" file=\"/libD.html\" import=\"sh\"/>${sh()}"],
+         "aux": {"/lib%s.html" % x: "<%%def name=\"sh()\">SH-%s</%%def>" % x for x in "ABCD"}, "opts": {}, "data": {}, "defs": []},
+    ]
     for f in fixed:
-        c = {"id": len(cases), "aux": {}, "uri": "/main.html", "flags": ["fixed"], "nested": []}
+        c = {"id": len(cases), "aux": {}, "uri": "/main.html", "flags": ["fixed"], "nested": [], "probes": []}
         c.update(f)
         cases.append(c)
     for c in cases[:: (8 if quick else 40)]:
@@ -1112,7 +1143,7 @@ def corr_decl_blocks(ctx, cases, res, seeds):
         if (rec["has_ns_imports"] and rec["toplevel"]) != pr["import_prelude"]:
             ctx.disagree("corr.decl_block", {"case": cid, "record": j, "what": "_import_ns prelude"}, rec["has_ns_imports"], pr["import_prelude"])
         orders.setdefault((cid, j), {})[s] = pr["decls"]
-    # blocks of different seeds: permutations of each other with distinct targets
+    # blocks of different seeds: identical (the generator sorts), a fortiori permutations with distinct targets
     reqs, meta = [], []
     distinct = 0
     for (cid, j), d in orders.items():
@@ -1124,8 +1155,9 @@ def corr_decl_blocks(ctx, cases, res, seeds):
             meta.append((cid, j, ss[0], s, d[ss[0]], d[s]))
     for (cid, j, sa, sb, da, db), o in zip(meta, drv.ask_many(reqs)):
         st_perm["cases"] += 1
-        if o != "1":
-            ctx.disagree("corr.decl_perm", {"case": cid, "record": j, "input": [da, db], "hashseeds": [sa, sb]}, o, "1")
+        if o != "1" or da != db:
+            ctx.disagree("corr.decl_perm", {"case": cid, "record": j, "input": [da, db], "hashseeds": [sa, sb]},
+                         "identical blocks (model: emittedBlock is a function of the set)", "perm=%s, equal=%s" % (o, da == db))
     ctx.branch("decl_blocks_with_seed_dependent_order", distinct)
     ctx.branch("decl_blocks_total", len(orders))
     # strict templates: the NameError raised is the first missing name of the emitted order
@@ -1377,7 +1409,7 @@ def corr_defs_header(ctx):
                         if f == "<imp>":
                             ok = ok and line.startswith("import ")
                         else:
-                            rx = "^" + re.escape(f).replace("%s", ".*").replace("%r", ".*") + "$"
+                            rx = "^" + re.escape(f).replace("%s", ".*").replace("%r", ".*").replace("%a", ".*") + "$"
                             ok = ok and re.match(rx, line) is not None
                     if not ok:
                         ctx.disagree("corr.preamble", {"encoding": encd, "future": fut, "imports": nimp, "magic": magic}, fm, head)
@@ -1436,9 +1468,14 @@ def check_own(lk, uris, texts):
             code = t.code
         except Exception as e:        # noqa: BLE001
             code = "%s: %s" % (type(e).__name__, e)
-        if ("_template_uri = %r" % t.uri) not in code or repr(want.split("${")[0]) not in code:
-            m = re.search(r"^_template_uri = (.*)$", code, re.M)
-            bad.append((u, "code", "the module generated for " + u, "the module generated for " + m.group(1) if m else code[:200]))
+        m = re.search(r"^_template_uri = (.*)$", code, re.M)
+        try:
+            import ast as _ast
+            code_uri = _ast.literal_eval(m.group(1)) if m else None
+        except (ValueError, SyntaxError):
+            code_uri = None
+        if code_uri != t.uri or repr(want.split("${")[0]) not in code:
+            bad.append((u, "code", "the module generated for " + u, "the module generated for %r" % code_uri if m else code[:200]))
         out = t.render_unicode()
         if out != want.split("<%def")[0].replace("${1+1}", "2"):
             bad.append((u, "output", want, out))
@@ -1605,7 +1642,7 @@ def replay(ctx, data):
         if isinstance(case, dict) and "items" in case:
             c = {"id": 0, "items": case["items"], "aux": case.get("aux", {}), "uri": case.get("uri", "/main.html"),
                  "data": case.get("data", {}), "opts": case.get("opts", {}), "defs": case.get("defs", []),
-                 "nested": case.get("nested", []), "cli_real": True}
+                 "nested": case.get("nested", []), "probes": case.get("probes", []), "cli_real": True}
             seeds = case.get("hashseeds") or ["0", "1", "2"]
             if len(seeds) == 1:
                 seeds = seeds + [s for s in ("0", "1", "2") if s not in seeds]
